@@ -62,6 +62,9 @@ func c13Valid(c c13Case) bool {
 	if c.State == "busy" && (c.Entry == "scan" || c.Queue < 2) {
 		return false
 	}
+	if c.State == "manydown" && c.Which == "callinbatch" {
+		return false
+	}
 	return true
 }
 
@@ -102,7 +105,14 @@ func c13RunInBubble(c c13Case) (out Outcome) {
 	// meta lives on rs1, the table on rs2 (so that the table's server can be down
 	// or stalled without taking hbase:meta with it)
 	cl := sim.New("rs1:16020", "rs2:16020", "rs3:16020")
-	if c.Split {
+	if c.State == "manydown" {
+		// eight regions on one server
+		var bounds [][]byte
+		for _, b := range []string{"b", "d", "f", "h", "m", "p", "t"} {
+			bounds = append(bounds, []byte(b))
+		}
+		cl.AddTable("t", bounds, []string{"rs2:16020"}, 1000, false)
+	} else if c.Split {
 		cl.AddTable("t", [][]byte{[]byte("m")}, []string{"rs2:16020", "rs3:16020"}, 1000, false)
 	} else {
 		cl.AddTable("t", [][]byte{[]byte("m")}, []string{"rs2:16020"}, 1000, false)
@@ -196,6 +206,22 @@ func c13RunInBubble(c c13Case) (out Outcome) {
 		cl.Stop()
 	}
 
+	// manydown: every region of the server is known to the client; then hbase:meta goes silent and the
+	// server's connection breaks: the request that notices has eight regions to get re-established
+	if c.State == "manydown" {
+		for i, k := range []string{"a", "c", "e", "g", "k", "n", "q", "z"} {
+			g, _ := hrpc.NewGet(context.Background(), []byte("t"), []byte(k), hrpc.Families(markerFam(fmt.Sprintf("mkwarm%d", i))))
+			if _, err := client.Get(g); err != nil {
+				teardown()
+				return viol("harness", "warm-up get failed: %v", err)
+			}
+		}
+		cl.Lock()
+		cl.MetaHold = true
+		cl.Unlock()
+		cl.KillConns("rs2:16020")
+		synctest.Wait()
+	}
 	// busy: stall the table's server after the probe and fill the pipe
 	fillers := 0
 	if c.State == "busy" {
@@ -362,6 +388,14 @@ func c13RunInBubble(c c13Case) (out Outcome) {
 			}
 		case "busy":
 			return true
+		case "manydown":
+			n := 0
+			for _, e := range execs {
+				if e.Method == "MetaScanArrived" {
+					n++
+				}
+			}
+			return n > 8 // (eight from the warm-up)
 		}
 		return false
 	}
@@ -504,7 +538,7 @@ func stringIndex(s, sub string) int {
 	return -1
 }
 
-var c13States = []string{"zk", "meta", "probe", "dialrefused", "backoff", "busy", "silent", "held"}
+var c13States = []string{"zk", "meta", "probe", "dialrefused", "backoff", "busy", "silent", "held", "manydown"}
 
 func c13Fill(t *rapid.T, c *c13Case) {
 	c.N = rapid.IntRange(1, 8).Draw(t, "n")
@@ -561,7 +595,7 @@ func TestC13_Cancellation(t *testing.T) {
 	theT = t
 	rec := evid.New("C13", "TestC13_Cancellation",
 		"rapid over the enumerated cross product (entry point in {Get, Put, SendBatch, Scanner.Next}) x (wait state in "+
-			"{ZooKeeper lookup held, meta scan held, region probe held, dial refused repeatedly, n-th retry back-off "+
+			"{ZooKeeper lookup held, meta scan held, region probe held, dial refused repeatedly, the connection of a server with eight cached regions breaking while hbase:meta is silent, n-th retry back-off "+
 			"sleep n=1..8, busy send queue, silent server, response of one call held}) x (which context: the call's, the "+
 			"batch's, a single call's inside a batch) x (cancel, deadline), with drawn batch shapes, keys, queue/flush "+
 			"settings and retryable classes; optionally another request with a live context is already stuck in the same state. Virtual time: the state is confirmed through the simulated cluster before the "+
